@@ -212,7 +212,7 @@ PROPS = {
  },
  'C13': {
   'level_text': 'Coq theorems (closed under the global context) on the Reader cursor model: a row call delivers exactly the row under the cursor; a whole-frame call writes exactly the consecutive rows from the cursor (row 0 for a '
-                'fresh frame) and on success all rows to the end; the cursor invariant is preserved by every call - so every mix of calls delivers each row of a frame once, in order. Row contents: C01/C15. The model is tied to '
+                'fresh frame) and on success all rows to the end; the cursor invariant is preserved by every call - so every mix of calls delivers each row of a frame once, in order; a frame call made in mid-frame stays on its frame and, with the whole input there, SUCCEEDS with exactly the outstanding rows - also when the data sequence of the last frame was flushed early and the frame already counted off (the state in which next_frame used to answer end-of-image: fix f28453e). Row contents: C01/C15. The model is tied to '
                 'the code by replaying EVERY op sequence to length 4 (5) and random longer ones on generated files through the extracted model, and all delivered frames are compared with the whole-frame decode.',
   'level_note': '''Trusted: Coq kernel; hand model of the Reader cursor (coq/Model/Reader.v) tied by differential execution of op sequences (C13 harness emits the abstract trace of every sequence and the extracted model must reproduce it); next_row / next_interlaced_row / read_row are one model operation (they share read_row); the scratch buffer handling is checked on the implementation only.''',
   'gen_items': [],
@@ -226,7 +226,7 @@ PROPS = {
  'C18': {
   'level_text': 'Coq theorems (closed under the global context): Reader cursor model - after a successful finish() every call is refused, writes nothing, stays there; after the last frame frame calls report end-of-image and row '
                 'calls no-more-rows; no panic site reachable from any state. Stream machine - the poisoned state is absorbing and answers at once; reset() yields the state of a new decoder (exactly the initial state when the '
-                'Adler flag and buffer capacity are the initial ones). Not proved: Reader-level non-poisoning errors never followed by a success for the same frame (decided by the harness).',
+                'Adler flag is the one the options give; the chunk buffer is back at its initial capacity - fix a8a7222 - so no premise about it remains). Not proved: Reader-level non-poisoning errors never followed by a success for the same frame (decided by the harness).',
   'level_note': '''Trusted: Coq kernel; hand model of the Reader cursor (coq/Model/Reader.v) tied by differential execution of op sequences (C13 harness emits the abstract trace of every sequence and the extracted model must reproduce it); hand model of stream.rs reset tied by the l0reset correspondence cases.''',
   'gen_items': ['CHUNK_BUFFER_SIZE'],
   'model_name': 'Model/Reader.v step; Model/Stream.v update, reset_model',
